@@ -8,6 +8,7 @@ import MW.Model.Amount
 import MW.Spec.Amount
 import MW.Lemmas.AmountParse
 import MW.Lemmas.AmountFormat
+import MW.Lemmas.AmountCli
 namespace MW.Props.C15
 open MW MW.Dec
 
@@ -205,6 +206,45 @@ theorem spec_value_exact (s : Bytes) (v : Nat) (h : Spec.Amount.parse s = some v
     exact ⟨s, [], Or.inl ⟨rfl, rfl⟩, hs, rfl, Or.inl hne, h2.1, h2.2.2, Spec.Amount.value_exact hv⟩
   · have h2 := Spec.Amount.value_eq_some.mp hv
     exact ⟨ip, fp, Or.inr e, hip, hfp, hne, h2.1, h2.2.2, Spec.Amount.value_exact hv⟩
+
+/-! ## 5b. the CLI amount reader `cmd/masswalletcli/cmd.stringToAmount` (TrimSuffix "MASS", TrimSpace, StringToAmount) -/
+
+/-- for every byte string the model of the CLI reader (suffix cut first, then Go's TrimSpace, then the parser)
+    and the spec's left-to-right scanner agree on acceptance and on the value -/
+theorem cli_parse_spec (s : Bytes) : (Model.Amount.cliParse s).toOption = Spec.Amount.cliParse s :=
+  Spec.Amount.model_eq_scan s
+
+/-- the model accepts EXACTLY the texts `white-space* numeral white-space* ("MASS")?`, with the numeral's value -/
+theorem cli_parse_accepts_iff (s : Bytes) (v : Nat) :
+    Model.Amount.cliParse s = .ok v ↔ Spec.Amount.Accepts s v :=
+  ⟨Spec.Amount.cli_sound, Spec.Amount.cli_complete⟩
+
+/-- and so does the scanner -/
+theorem cli_scan_accepts_iff (s : Bytes) (v : Nat) : Spec.Amount.cliParse s = some v ↔ Spec.Amount.Accepts s v :=
+  ⟨Spec.Amount.scan_sound, Spec.Amount.scan_complete⟩
+
+/-- no guessing: whenever the CLI reader returns a value, the text minus outer white space and ONE optional
+    "MASS" unit is a numeral of the property (digits and at most one point: no inner separator, second token,
+    sign or exponent) and the value returned is that numeral's value -/
+theorem cli_parse_no_guess (s : Bytes) (v : Nat) (h : Model.Amount.cliParse s = .ok v) :
+    ∃ w1 n w2 u : Bytes, s = w1 ++ n ++ w2 ++ u ∧ Spec.Amount.WS w1 ∧ Spec.Amount.WS w2 ∧
+      (u = [] ∨ u = Spec.Amount.massSfx) ∧ Spec.Amount.parse n = some v ∧
+      (∀ b ∈ n, isDigit b = true ∨ b = dot) := by
+  obtain ⟨w1, n, w2, u, e, h1, h2, hu, hv⟩ := Spec.Amount.cli_sound h
+  refine ⟨w1, n, w2, u, e, h1, h2, hu, hv, fun b hb => ?_⟩
+  simpa [Spec.Amount.isNumCh] using Spec.Amount.numeral_chars hv b hb
+
+-- " 1.5 MASS" and "\t1.5\n" are read as 1.5 MASS
+example : Model.Amount.cliParse [32, 49, 46, 53, 32, 77, 65, 83, 83] = .ok 150000000 := by decide
+example : Model.Amount.cliParse [9, 49, 46, 53, 10] = .ok 150000000 := by decide
+-- "1 000 MASS", "12 34", "1.5 e3", "1 MASS " (unit not at the very end), "MASS", "1 MASSMASS", "1mass" are refused
+example : (Model.Amount.cliParse [49, 32, 48, 48, 48, 32, 77, 65, 83, 83]).toOption = none := by decide
+example : (Model.Amount.cliParse [49, 50, 32, 51, 52]).toOption = none := by decide
+example : (Model.Amount.cliParse [49, 46, 53, 32, 101, 51]).toOption = none := by decide
+example : (Model.Amount.cliParse [49, 32, 77, 65, 83, 83, 32]).toOption = none := by decide
+example : (Model.Amount.cliParse [77, 65, 83, 83]).toOption = none := by decide
+example : (Model.Amount.cliParse [49, 32, 77, 65, 83, 83, 77, 65, 83, 83]).toOption = none := by decide
+example : (Model.Amount.cliParse [49, 109, 97, 115, 115]).toOption = none := by decide
 
 /-! ## 6. tie to the regenerated constants -/
 
